@@ -313,3 +313,28 @@ let () =
               | Some l -> String.concat "\x1f" (List.map (fun (n, t) -> implode n ^ "\x1e" ^ escape (implode t)) l)
               | None -> "NOLEX")
     | _ -> "BADARGS")
+
+(* ------------------------------------------------------------------ reader (C03) *)
+(* items: R<hex>; C<hex>; [ ]   separated by nothing;  result: canonical nested text of the rose tree *)
+let rec ritems r : item list =
+  if r.i >= String.length r.s then [] else
+  match next r with
+  | 'R' -> let h = until_semi r in IRes (explode (unhex h)) :: ritems r
+  | 'C' -> let h = until_semi r in ICon (explode (unhex h)) :: ritems r
+  | '[' -> ILb :: ritems r
+  | ']' -> IRb :: ritems r
+  | c -> failwith "bad item"
+let rec rose_str (Rose (n, kids)) =
+  "(" ^ hex_of (implode n) ^ String.concat "" (List.map (fun (l, k) -> "<" ^ hex_of (implode l) ^ ">" ^ rose_str k) kids) ^ ")"
+let () =
+  register "read" (function
+    | [its] -> (match read (ritems { s = its; i = 0 }) with Some t -> rose_str t | None -> "NOREAD")
+    | _ -> "BADARGS")
+
+let () =
+  register "addedge" (function
+    | [which; name; lactole; con] ->
+        let k = if which = "code" then code_ketose_test (explode name) (nat_of_int (int_of_string lactole))
+                else spec_ketose_test (explode name) (nat_of_int (int_of_string lactole)) in
+        implode (add_edge k (explode con))
+    | _ -> "BADARGS")
